@@ -525,6 +525,28 @@ def delay_streams(run: AsyncRun, n=100, gs0=None):
     return out
 
 
+def graph_from_dict(d, like=None):
+    """inverse of graph_to_dict (dtypes of `like`, a rex.base.Graph, where given; the float values in the file are exact)"""
+    import numpy as onp
+    from rex import base
+
+    def arr(x, ref, default):
+        return onp.asarray(x, dtype=(onp.asarray(ref).dtype if ref is not None else default))
+
+    V = {}
+    for n, v in d["vertices"].items():
+        rv = like.vertices[n] if like is not None else None
+        V[n] = base.Vertex(seq=arr(v["seq"], rv.seq if rv else None, onp.int64), ts_start=arr(v["ts_start"], rv.ts_start if rv else None, onp.float64),
+                           ts_end=arr(v["ts_end"], rv.ts_end if rv else None, onp.float64))
+    E = {}
+    for k, e in d["edges"].items():
+        a, b = k.split("->")
+        re_ = like.edges[(a, b)] if like is not None else None
+        E[(a, b)] = base.Edge(seq_out=arr(e["seq_out"], re_.seq_out if re_ else None, onp.int64), seq_in=arr(e["seq_in"], re_.seq_in if re_ else None, onp.int64),
+                              ts_recv=arr(e["ts_recv"], re_.ts_recv if re_ else None, onp.float64))
+    return base.Graph(vertices=V, edges=E)
+
+
 # ------------------------------------------------------------------------------------------------
 # compiled runtime
 
@@ -953,6 +975,32 @@ def raw_graph_of(spec):
         edges[(c["src"], c["dst"])] = Edge(seq_out=onp.array(so, dtype=onp.int32), seq_in=onp.array(si, dtype=onp.int32), ts_recv=onp.array(tr, dtype=onp.float32))
     g = Graph(vertices={n: Vertex(seq=v[0], ts_start=v[1], ts_end=v[2]) for n, v in verts.items()}, edges=edges)
     return Graph.stack([g])
+
+
+def truncate_graph(g, lens):
+    """the recorded graph as it would be had node n recorded only lens[n][e] steps in episode e (how far a node other than the supervisor
+    has got when an episode is stopped depends on the thread schedule): later vertices and every message from / to them become padding"""
+    import numpy as onp
+    from rex import base
+
+    V = {}
+    for n, v in g.vertices.items():
+        seq, ts, te = onp.array(v.seq).copy(), onp.array(v.ts_start).copy(), onp.array(v.ts_end).copy()
+        for e in range(seq.shape[0]):
+            seq[e, lens[n][e]:] = -1
+            ts[e, lens[n][e]:] = -1
+            te[e, lens[n][e]:] = -1
+        V[n] = base.Vertex(seq=seq, ts_start=ts, ts_end=te)
+    E = {}
+    for (a, b), ed in g.edges.items():
+        so, si, tr = onp.array(ed.seq_out).copy(), onp.array(ed.seq_in).copy(), onp.array(ed.ts_recv).copy()
+        for e in range(so.shape[0]):
+            bad = (so[e] >= lens[a][e]) | (si[e] >= lens[b][e])
+            so[e][bad] = -1
+            si[e][bad] = -1
+            tr[e][bad] = -1
+        E[(a, b)] = base.Edge(seq_out=so, seq_in=si, ts_recv=tr)
+    return base.Graph(vertices=V, edges=E)
 
 
 def expected_windows(spec, graphs_raw, e):
